@@ -1025,6 +1025,14 @@ def _meta_kw(env, x, dtype, name=False):
     return {"meta": (nm, dtype)}
 
 
+def _user_dtype(env, x, how, declared):
+    """dtype a user would declare: dtype-preserving functions (f_inc, f_sq) keep the dtype the lazy collection reports
+    (the generator's static guess can be off after value-dependent upcasts such as where() on ints)"""
+    if env.is_dask and how.get("func") in ("f_inc", "f_sq") and str(x.dtype) in ("int64", "float64"):
+        return str(x.dtype)
+    return declared
+
+
 def ev(e, df, env):
     """Evaluate an expression against frame `df` (dask or pandas); env.self_ is the series of ["self"]."""
     t = e[0]
@@ -1081,10 +1089,10 @@ def ev(e, df, env):
     if t == "map":
         x = ev(e[1], df, env)
         arg = dict((k, v) for k, v in e[2]["dict"]) if "dict" in e[2] else FUNCS[e[2]["func"]]
-        return x.map(arg, **_meta_kw(env, x, e[3]))
+        return x.map(arg, **_meta_kw(env, x, _user_dtype(env, x, e[2], e[3])))
     if t == "apply":
         x = ev(e[1], df, env)
-        return x.apply(FUNCS[e[2]["func"]], **_meta_kw(env, x, e[3]))
+        return x.apply(FUNCS[e[2]["func"]], **_meta_kw(env, x, _user_dtype(env, x, e[2], e[3])))
     if t == "str":
         x = ev(e[2], df, env)
         return getattr(x.str, e[1])(*e[3], **e[4])
